@@ -192,17 +192,17 @@ Item_t *ConcurrentBoundedQueue_L_AsyncFileAppender_Item_SchedInterface_R_Iterato
   return &g_items[k];
 }
 void LPOP(PopL_t *c, QIt_t iter, QIt_t end)
-__CPROVER_requires(__CPROVER_is_fresh(c, sizeof(*c)) && __CPROVER_is_fresh(c->cap_stop, sizeof(_Bool)) && __CPROVER_is_fresh(c->cap_this, sizeof(App_t)) && __CPROVER_is_fresh(c->cap_this->_page_allocator, 8))
+__CPROVER_requires(__CPROVER_is_fresh(c, sizeof(*c)) && __CPROVER_is_fresh(c->VF_CAP_lambda_async_file_appender_keep_writing_1_1, sizeof(_Bool)) && __CPROVER_is_fresh(c->cap_this, sizeof(App_t)) && __CPROVER_is_fresh(c->cap_this->_page_allocator, 8))
 __CPROVER_requires(QPOS(iter) == 0 && QPOS(end) == g_qn && g_appended == 0 && g_order_ok && g_dest_ok && g_ps_ok && g_dest_calls == 0 && g_cur_dest == 0)
-__CPROVER_assigns(*c->cap_stop, g_appended, g_order_ok, g_dest_ok, g_ps_ok, g_cur_dest, g_cur_idx, g_dest_calls, __CPROVER_object_whole(g_dests), __CPROVER_object_whole(g_items))
+__CPROVER_assigns(*c->VF_CAP_lambda_async_file_appender_keep_writing_1_1, g_appended, g_order_ok, g_dest_ok, g_ps_ok, g_cur_dest, g_cur_idx, g_dest_calls, __CPROVER_object_whole(g_dests), __CPROVER_object_whole(g_items))
 __CPROVER_ensures(g_order_ok && g_dest_ok && g_ps_ok)
-__CPROVER_ensures(g_stop_at < g_qn ? (g_appended == g_stop_at && *c->cap_stop) : (g_appended == g_qn && *c->cap_stop == __CPROVER_old(*c->cap_stop)))
+__CPROVER_ensures(g_stop_at < g_qn ? (g_appended == g_stop_at && *c->VF_CAP_lambda_async_file_appender_keep_writing_1_1) : (g_appended == g_qn && *c->VF_CAP_lambda_async_file_appender_keep_writing_1_1 == __CPROVER_old(*c->VF_CAP_lambda_async_file_appender_keep_writing_1_1)))
 __CPROVER_ensures(g_dest_calls == g_appended)
 ;
 //@loop AsyncFileAppender_keep_writing_lambda_async_file_appender_keep_writing_1_op_call 1
 //@  __CPROVER_assigns(@p1:iter@, g_appended, g_order_ok, g_dest_ok, g_ps_ok, g_cur_dest, g_cur_idx, g_dest_calls, __CPROVER_object_whole(g_dests), __CPROVER_object_whole(g_items))
 //@  __CPROVER_loop_invariant(QPOS(@p1:iter@) == g_appended && g_appended <= g_qn && g_appended <= g_stop_at && g_order_ok && g_dest_ok && g_ps_ok && g_dest_calls == g_appended && g_cur_dest == 0 && QPOS(@p2:end@) == g_qn)
-//@  __CPROVER_loop_invariant(*self->cap_stop == __CPROVER_loop_entry(*self->cap_stop))
+//@  __CPROVER_loop_invariant(*self->VF_CAP_lambda_async_file_appender_keep_writing_1_1 == __CPROVER_loop_entry(*self->VF_CAP_lambda_async_file_appender_keep_writing_1_1))
 //@  __CPROVER_decreases(g_qn - g_appended)
 //@end
 
